@@ -380,7 +380,7 @@ def _site(text, h):
         ln, col = pos
         return starts[ln - 1] + col if 0 < ln <= len(starts) else len(src)
 
-    left = right = None
+    left = left2 = right = None
     stack = []
     for t in toks:
         if t.type in (T.ENCODING, T.INDENT, T.DEDENT, T.FSTRING_MIDDLE, T.NEWLINE, T.NL):
@@ -409,10 +409,12 @@ def _site(text, h):
                 right = t
             continue
         if e <= i1:
-            left = t
+            left2, left = left, t
         elif right is None and s >= i2:
             right = t
     L, R = _tokclass(left), _tokclass(right)
+    if L == "=" and _tokclass(left2) == "ioredir":
+        L = "ioredir="  # `a>=b` is lexed as the redirect token `a>` followed by `=`
     if part == "trail":
         return "after-backslash" if L in ("BSLASH", "CONT") else "line-end"
     if part == "lines":
@@ -434,8 +436,8 @@ def _site(text, h):
     # operator sites carry the innermost enclosing bracket: `a:b` in a slice, a dict, a call, a
     # subprocess capture or at statement level are governed by different formatter rules
     brk = "/" + stack[-1] if stack else ""
-    if "ioredir" in (L, R) and "w" not in (L, R):
-        return f"{L}|{R}"
+    if "ioredir=" in (L, R) or ("ioredir" in (L, R) and "w" not in (L, R)):
+        return "ioredir|="
     for x in (R, L):
         if x in (",", ";", ":"):
             return "@" + x + brk
